@@ -95,7 +95,7 @@ fn dec(n: impl ToString) -> String {
 // kinds
 
 #[derive(Clone, Copy, Debug, PartialEq, Eq)]
-enum K {
+pub(crate) enum K {
     BamV,
     Bcf,
     Cram,
@@ -115,10 +115,10 @@ enum K {
     Fasta,
 }
 
-const KINDS: [K; 17] = [K::BamV, K::Bcf, K::Cram, K::Bai, K::Tbi, K::Csi, K::Gzi, K::SamRec, K::VcfRec, K::SamLine, K::VcfLine, K::Fai, K::Crai, K::Gff, K::Gtf, K::FaSeq, K::Fasta];
+pub(crate) const KINDS: [K; 17] = [K::BamV, K::Bcf, K::Cram, K::Bai, K::Tbi, K::Csi, K::Gzi, K::SamRec, K::VcfRec, K::SamLine, K::VcfLine, K::Fai, K::Crai, K::Gff, K::Gtf, K::FaSeq, K::Fasta];
 
 impl K {
-    fn name(self) -> &'static str {
+    pub(crate) fn name(self) -> &'static str {
         match self {
             K::BamV => "bamv",
             K::Bcf => "bcf",
@@ -139,15 +139,15 @@ impl K {
             K::Fasta => "fasta",
         }
     }
-    fn parse(s: &str) -> Option<K> {
+    pub(crate) fn parse(s: &str) -> Option<K> {
         KINDS.into_iter().find(|k| k.name() == s)
     }
     /// the noodles reader takes `BufRead`
-    fn buffered(self) -> bool {
+    pub(crate) fn buffered(self) -> bool {
         matches!(self, K::SamRec | K::VcfRec | K::SamLine | K::VcfLine | K::Fai | K::Gff | K::Gtf | K::FaSeq | K::Fasta)
     }
     /// the class suffix of the oracle failures (the names `c12.rs` uses for the same readers)
-    fn class(self) -> &'static str {
+    pub(crate) fn class(self) -> &'static str {
         match self {
             K::BamV => "bam-raw",
             K::Bcf => "bcf-raw",
@@ -169,16 +169,16 @@ impl K {
 
 /// one input: what the real reader is given, what the model is given (the uncompressed payload
 /// for readers behind BGZF / gzip), structure offsets for the boundary schedules, extra request words
-struct Input {
-    data: Vec<u8>,
-    model: Vec<u8>,
-    bounds: Vec<usize>,
+pub(crate) struct Input {
+    pub(crate) data: Vec<u8>,
+    pub(crate) model: Vec<u8>,
+    pub(crate) bounds: Vec<usize>,
     /// FASTA sequence reader: the buffer sizes the harness-driven `fill_buf` / `consume` loop uses
-    sizes: Vec<usize>,
+    pub(crate) sizes: Vec<usize>,
 }
 
 impl Input {
-    fn plain(data: Vec<u8>, bounds: Vec<usize>) -> Self {
+    pub(crate) fn plain(data: Vec<u8>, bounds: Vec<usize>) -> Self {
         Input { model: data.clone(), data, bounds, sizes: vec![] }
     }
 }
@@ -496,7 +496,7 @@ fn bgzf_payload(file: &[u8]) -> Option<Vec<u8>> {
 }
 
 /// BGZF-compress with the real writer, cutting members at random places
-fn bgzf_wrap(rng: &mut Rng, payload: &[u8]) -> Vec<u8> {
+pub(crate) fn bgzf_wrap(rng: &mut Rng, payload: &[u8]) -> Vec<u8> {
     let mut w = bgzf::io::Writer::new(Vec::new());
     let mut at = 0;
     while at < payload.len() {
@@ -729,7 +729,7 @@ fn word(rng: &mut Rng, alphabet: &[u8], lo: u64, hi: u64) -> String {
     (0..rng.range(lo, hi)).map(|_| *rng.pick(alphabet) as char).collect()
 }
 
-fn line_ends(t: &[u8]) -> Vec<usize> {
+pub(crate) fn line_ends(t: &[u8]) -> Vec<usize> {
     t.iter().enumerate().filter(|(_, c)| **c == b'\n').map(|(i, _)| i + 1).collect()
 }
 
@@ -863,7 +863,7 @@ fn gen_fasta_text(rng: &mut Rng) -> Vec<u8> {
 
 /// the well-formedness the theorem about `read_sequence` asks for (`wfSeq` of the Lean model): up to
 /// the next definition a `>` only follows an LF, a CR is followed by an LF or by nothing
-fn wf_seq(mut prev: u8, t: &[u8]) -> (bool, usize) {
+pub(crate) fn wf_seq(mut prev: u8, t: &[u8]) -> (bool, usize) {
     for (i, &c) in t.iter().enumerate() {
         if c == b'>' {
             return (prev == b'\n', i);
@@ -877,7 +877,7 @@ fn wf_seq(mut prev: u8, t: &[u8]) -> (bool, usize) {
 }
 
 /// every sequence block of a FASTA text is well formed (`wfFasta` of the Lean model)
-fn wf_fasta(t: &[u8]) -> bool {
+pub(crate) fn wf_fasta(t: &[u8]) -> bool {
     let mut at = 0;
     while at < t.len() {
         // the definition line
@@ -913,13 +913,13 @@ fn gen_crai_text(rng: &mut Rng) -> Vec<u8> {
     s.into_bytes()
 }
 
-fn gzip(rng: &mut Rng, text: &[u8]) -> Vec<u8> {
+pub(crate) fn gzip(rng: &mut Rng, text: &[u8]) -> Vec<u8> {
     let mut e = flate2::write::GzEncoder::new(Vec::new(), flate2::Compression::new(rng.below(7) as u32));
     e.write_all(text).unwrap();
     e.finish().unwrap()
 }
 
-fn gen_input(k: K, hist: &mut Vec<String>, rng: &mut Rng) -> Option<Input> {
+pub(crate) fn gen_input(k: K, hist: &mut Vec<String>, rng: &mut Rng) -> Option<Input> {
     const STRUCT: &[u8] = b"\t\n\rx*@>#= ";
     match k {
         K::BamV => Some(gen_bamv(rng)),
@@ -1175,7 +1175,7 @@ fn line_table(k: K, text: &[u8]) -> String {
 }
 
 /// the REAL reader of kind `k` over `inp.data` delivered by (`sched`, `cap`); the canonical answer line
-fn real(k: K, inp: &Input, sched: Vec<Delivery>, cap: Option<usize>) -> String {
+pub(crate) fn real(k: K, inp: &Input, sched: Vec<Delivery>, cap: Option<usize>) -> String {
     let data = &inp.data;
     let bcap = cap.unwrap_or(8192);
     let res = guarded(|| match k {
@@ -1420,7 +1420,7 @@ fn explicit(sched: &[Delivery], fallback: usize, len: usize) -> Vec<Delivery> {
 /// the request line for the Lean model; `sched` is the explicit schedule the real reader saw. For the
 /// readers behind a decompressor the model gets the payload and the schedule cut to its length (the
 /// model's answer does not depend on it: that is the theorem)
-fn request(k: K, inp: &Input, sched: &[Delivery], cap: Option<usize>) -> String {
+pub(crate) fn request(k: K, inp: &Input, sched: &[Delivery], cap: Option<usize>) -> String {
     let m = hex(&inp.model);
     let sc = if inp.model.len() == inp.data.len() { fmt_sched(sched) } else { fmt_sched(&sched[..sched.len().min(inp.model.len() + 8)]) };
     let c = cap.unwrap_or(8192);
@@ -1435,7 +1435,7 @@ fn request(k: K, inp: &Input, sched: &[Delivery], cap: Option<usize>) -> String 
     }
 }
 
-fn count_items(ans: &str) -> usize {
+pub(crate) fn count_items(ans: &str) -> usize {
     ans.split(' ').find_map(|w| w.strip_prefix("recs=").or(w.strip_prefix("conts="))).map(|r| if r == "-" { 0 } else { r.split(',').count() }).unwrap_or(0)
 }
 
@@ -1552,7 +1552,7 @@ pub fn suite(ctx: &mut Ctx) {
 // ------------------------------------------------------------------------------------------------
 // hand-written boundary cases, always run first (index = replay id)
 
-fn corpus_cases() -> Vec<(K, Input, Vec<Delivery>, usize, Option<usize>)> {
+pub(crate) fn corpus_cases() -> Vec<(K, Input, Vec<Delivery>, usize, Option<usize>)> {
     use Delivery::{Chunk as C, Interrupted as I};
     let t = |k: K, s: &[u8], sched: Vec<Delivery>, fb: usize, cap: usize| (k, Input::plain(s.to_vec(), line_ends(s)), sched, fb, Some(cap));
     let mut v = vec![];
